@@ -261,6 +261,9 @@ SCHED_SETS = [
     [("INBOX", ["UID STORE 1:* FLAGS (kwx)", "NOOP"]), ("INBOX", ["UID STORE 3 +FLAGS (\\Deleted)", "EXPUNGE", "NOOP"]), ("INBOX", ["EXPUNGE", "NOOP"])],
     [("INBOX", ["UID FETCH 1:4 (FLAGS)", "NOOP"]), ("INBOX", ["UID FETCH 5 (FLAGS)", "NOOP"]), ("INBOX", ["UID STORE 1:4 +FLAGS (\\Flagged)", "NOOP"])],
     [("pop3", ["DELE 1", "DELE 3", "QUIT"]), ("INBOX", ["UID STORE 1:* -FLAGS (\\Deleted)", "NOOP"]), ("INBOX", ["UID FETCH 1:* (FLAGS)", "NOOP"])],
+    # nothing is flagged \\Deleted when the EXPUNGE arrives; a STORE that sets the flag is under way
+    [("#", ["nodeleted"]), ("INBOX", ["UID STORE 3 +FLAGS (\\Deleted)", "NOOP"]), ("INBOX", ["EXPUNGE", "NOOP"]), ("INBOX", ["NOOP", "NOOP"])],
+    [("#", ["nodeleted"]), ("INBOX", ["UID STORE 2:4 +FLAGS (\\Deleted \\Flagged)", "NOOP"]), ("INBOX", ["CLOSE"]), ("INBOX", ["UID FETCH 1:* (FLAGS)", "NOOP"]), ("INBOX", ["EXPUNGE", "NOOP"])],
 ]
 
 _plan_hist, _run_hist = plan, run_shard
